@@ -93,6 +93,20 @@ def mixed_selfref(prog):
     return plain & prog._selfref
 
 
+def payload_eq(kind, rp, ap):
+    """Equality of a reference payload and a machine payload; '?' in the reference is a wildcard (T3)."""
+    if kind == "hook":
+        if rp[0] != ap[0]:
+            return False
+        rv, av = dict(rp[1]), dict(ap[1])
+        if set(rv) != set(av):
+            return False
+        return all(rv[k] == "?" or rv[k] == av[k] for k in rv)
+    if kind == "setx":
+        return rp[0] == ap[0] and (rp[1] == "?" or rp[1] == ap[1])
+    return rp == ap
+
+
 def compare(prog, word, outcome, tl, fcodes):
     """Returns None or (kind, text)."""
     n = len(word)
@@ -102,7 +116,7 @@ def compare(prog, word, outcome, tl, fcodes):
     m = min(len(re_), len(ae))
     for i in range(m):
         (g, rk, rp), (k, ak, ap) = re_[i], ae[i]
-        if rk != ak or rp != ap:
+        if rk != ak or not payload_eq(rk, rp, ap):
             return ("event-differs", "strict event #%d: reading performs %r, machine performs %r" % (i, re_[i], ae[i]))
         if k not in (g - 1, g):
             return ("event-position", "strict event #%d %r: reading at offset %d, machine while dispatching byte %d" % (i, (rk, rp), g, k))
@@ -142,7 +156,7 @@ def compare(prog, word, outcome, tl, fcodes):
                 return ("terminal-position", "reading ends %r after %d bytes, machine while dispatching byte %d" % (rt, g, at[0]))
             if not prog._mixed and outcome.final is not None and tl.final is not None:
                 rf = {k: v for k, v in outcome.final.items()}
-                if rf != tl.final:
+                if any(v != "?" and tl.final.get(k) != v for k, v in rf.items()) or set(rf) != set(tl.final):
                     return ("final-outputs", "outputs at the end: reading %r, machine %r" % (rf, tl.final))
         return None
     if rt is None and at is None:
@@ -157,6 +171,34 @@ def compare(prog, word, outcome, tl, fcodes):
     if outcome.pending and at[1] == 1:
         return ("fail-early", "machine fails at byte %d while the reading is still waiting for input" % at[0])
     return ("terminal-extra", "machine returns code %d at byte %d, reading has not terminated (pending=%s)" % (at[1], at[0], outcome.pending))
+
+
+def block_ends_nullable(body, nested=False):
+    """Some nested block's last consuming statement can be skipped entirely (optional / nullable construct)."""
+    found = False
+    last_consuming = next((x for x in reversed(body) if not ir.is_action(x)), None)
+    trailing_actions = bool(body) and ir.is_action(body[-1])
+    if (nested or trailing_actions) and last_consuming is not None and last_consuming[0] != "loop" and ir.stmt_summary(last_consuming, []).nullable:
+        return True
+    for st_ in body:
+        k = st_[0]
+        subs = []
+        if k == "loop":
+            subs = [st_[2]]
+        elif k == "optional":
+            subs = [st_[1]]
+        elif k == "case":
+            subs = [x[2] for x in st_[2]]
+        elif k == "try":
+            subs = [st_[2], st_[3]]
+        elif k == "foreach":
+            subs = [st_[1]]
+        elif k == "if":
+            subs = [x[1] for x in st_[1]] + ([st_[2]] if st_[2] else [])
+        for sb in subs:
+            if sb and block_ends_nullable(sb, True):
+                found = True
+    return found
 
 
 def interfering_pair(body):
@@ -232,6 +274,9 @@ def check_program(shard, prog, argv, max_len, choices_list=(), do_c=True):
         if d and any(k_ == "overflow" and p_[-1] == "char" for _, k_, p_ in tl.events):
             raise Failure("c01:char-append-overflow-redispatches-consumed-byte", "input %s: %s\nreading: events=%r terminal=%r\nmachine: events=%r terminal=%r\n%s"
                           % (word.hex(), d[1], outcome.events[-6:], outcome.terminal, tl.events[-6:], tl.terminal, src), dict(replay, input=word.hex()))
+        if d and block_ends_nullable(prog.body):
+            raise Failure("c01:actions-after-block-ending-in-optional-lost-when-skipped", "input %s: %s\nreading: events=%r terminal=%r\nmachine: events=%r terminal=%r\n%s"
+                          % (word.hex(), d[1], outcome.events[-6:], outcome.terminal, tl.events[-6:], tl.terminal, src), dict(replay, input=word.hex()))
         if d and interfering_pair(prog.body):
             raise Failure("c01:eager-nonstrict-action-interferes-with-open-append", "input %s: %s\nreading: events=%r terminal=%r\nmachine: events=%r terminal=%r\n%s"
                           % (word.hex(), d[1], outcome.events[-6:], outcome.terminal, tl.events[-6:], tl.terminal, src), dict(replay, input=word.hex()))
@@ -306,7 +351,7 @@ def case_strategy(draw):
     mode = draw(st.sampled_from(["plain", "plain", "plain", "yield"]))
     cfg = gen.GenConfig(max_depth=2, max_stmts=5, allow_yield=(mode == "yield"), n_hooks=(1, 2), n_strs=(0, 2), str_sizes=[1, 2, 3, 4],
                         kinds={"yield": 2 if mode == "yield" else 0, "hook": 5, "try": 4, "case": 4, "loop": 3, "optional": 3, "foreach": 2,
-                               "if": 2, "ifact": 2, "append": 4, "assign": 3, "finish": 1, "wait": 1, "appendc": 0}, wide_bytes=0.02, allow_greedy=False)
+                               "if": 2, "ifact": 2, "append": 4, "assign": 3, "finish": 1, "wait": 1, "appendc": 0}, wide_bytes=0.02, allow_greedy=False, valid_bias=1.0)
     prog = draw(gen.program(cfg))
     choices = draw(st.lists(st.lists(st.integers(0, 4095), min_size=4, max_size=30), min_size=1, max_size=2))
     return prog, list(prog.argv), choices
@@ -325,6 +370,9 @@ def worker(job):
 
 
 KNOWN_PROGRAMS = {
+    "c01:actions-after-block-ending-in-optional-lost-when-skipped": ir.Program(
+        [], ["h0"], [], [], [],
+        (("case", False, (((("lit", b"a", "str"),), None, (("optional", (("match", ("lit", b"a", "str")),)),)),)), ("hook", "h0"), ("match", ("lit", b"b", "str"))), ["-O1"]),
     "c01:eager-nonstrict-action-interferes-with-open-append": ir.Program(
         [("str", "s0", 1, False, None, False)], [], [], [], [],
         (("append", "s0", ("re", ("op", ("lit", 0x61), "+"), False)), ("assignstr", "s0", b""), ("match", ("lit", b";", "str"))), ["-O1"]),
